@@ -10,6 +10,11 @@ CLAIMED = {
   text="Exploration over call histories (decode, bpm x16, convert by value/ref/mut, difficulty, strains, performance, gradual walks, attribute builder) on tie-heavy and generic maps: a recurring call must give the bit-identical result regardless of what ran in between, no call modifies a borrowed map, and two separate processes produce identical digests.",
   note="Per-process hash keys/ASLR vary between the two driver-spawned processes; within a process every HashMap::default() draws fresh keys.",
   ref="DESIGN.md §4 C01"),
+ "C05": dict(
+  technique="fuzzing-style generated-input search with process isolation: seeded structured generators (adversarial specs, token corruption at the parser limits, realistic specs) drive a call-everything routine in worker processes; the driver's watchdog, exit status and RLIMIT_AS are the oracle for hang / abort / OOM, catch_unwind for panics",
+  text="Exploration of the stated domain (explicit gate, discards counted): adversarial inputs on the release profile, realistic inputs on both the dev profile (overflow checks + debug assertions) and release; every public calculation incl. gradual walks and arbitrary score states per case; hangs confirmed alone with a 10x budget before being reported.",
+  note="Hangs are decided by a clock (10 s / 30 s per case under load, confirmed with 10x alone); the open steps-x-sections finding and the open taiko gradual findings are steered around (labelled).",
+  ref="DESIGN.md §4 C05"),
  "C06": dict(
   technique=PBT + " over mutated .osu texts and raw bytes (grammar-based generation + line/token/byte/encoding mutators) with a well-formedness validity predicate, a bytes/str/path round-trip differential and a tagged-sound metamorphic oracle; reference-model check of the sorters through the hook",
   text="Exploration: decoding never panics and fails only with io::Error; every decoded map satisfies the ordering, pairing, strictness and clamp invariants; the three entry points agree; tagged lines keep their sound and stable order; the tandem sorter equals a stable reference sort.",
